@@ -197,6 +197,27 @@ def suite_float(ctx):
             got = maps.interpolate(gi, vals, go, method='volume')
         if not np.allclose(got, ex, rtol=64*eps, atol=0):
             bad.append(('interpolate', gi.shape_cells, go.shape_cells))
+        # the same two grids far from the origin (UTM-like coordinates, cells
+        # of 5 .. 40 m): overlaps depend on differences of coordinates only
+        T = np.array([512000., 6571000., -3100.])
+        gi2 = emg3d.TensorMesh([h*20.0 for h in gi.h], gi.origin*20.0 + T)
+        go2 = emg3d.TensorMesh([h*20.0 for h in go.h], go.origin*20.0 + T)
+        with warnings.catch_warnings():
+            warnings.simplefilter('ignore')
+            got2 = maps.interpolate(gi2, vals, go2, method='volume')
+            gl2 = maps.interpolate(gi2, vals, go2, method='volume', log=True)
+            gl1 = maps.interpolate(gi, vals, go, method='volume', log=True)
+        if not (np.allclose(got2, got, rtol=1e-7, atol=0) and
+                np.allclose(gl2, gl1, rtol=1e-7, atol=0)):
+            ctx.violation(
+                'volume-average-depends-on-position',
+                f'volume averaging between the same pair of grids, scaled by '
+                f'20 and moved to {T.tolist()}, gives other values (max rel. '
+                f'diff {float(np.max(np.abs(got2/got-1))):.3g} linear, '
+                f'{float(np.max(np.abs(gl2/gl1-1))):.3g} log)',
+                {'in': gi.shape_cells, 'out': go.shape_cells,
+                 'origin_in': gi2.origin.tolist(),
+                 'origin_out': go2.origin.tolist()})
         # log mode: property oracle (same result for rho and sigma; identity;
         # range)
         with warnings.catch_warnings():
@@ -400,9 +421,15 @@ def run(ctx):
         'pairing <P v, w> = <v, P^T w>, not verified',
         'log10 / 10** rounding in log mode (1e-13 relative)',
     ]
-    b1 = suite_exact(ctx)
+    exc = None
+    try:
+        b1 = suite_exact(ctx)
+    except Exception as e:      # noqa  (kernel source no longer runs exactly)
+        exc, b1 = e, [('exact suite raised', f'{type(e).__name__}: {e}'[:200])]
     b2 = suite_float(ctx)
     suite_sim(ctx)
+    if exc is not None and not ctx.violations:
+        raise exc
     if (b1 or b2) and not ctx.violations:
         ctx.violation('model-correspondence-broken',
                       'volume averaging no longer computes the closed form '
